@@ -154,6 +154,8 @@ theorem step_fullFDerived (O : Ops μ ρ) (K : Nat) (st : State μ ρ) (op : Op 
     · exact fullFDerived_of_none O K _ rfl
     · exact h
   | setInit a => exact h
+  | query => exact h
+  | fork => exact h
   | setPrecoders f fullF p =>
     cases fullF with
     | some X => simp [Op.installsFullF] at hi
@@ -230,6 +232,8 @@ theorem step_resets (O : Ops μ ρ) (K : Nat) (st : State μ ρ) (op : Op μ ρ)
     · exact hr
   | clear => rfl
   | setInit a => simp [Op.resetsFullF] at hr
+  | query => simp [Op.resetsFullF] at hr
+  | fork => simp [Op.resetsFullF] at hr
   | setFilters wH w => simp [Op.resetsFullF] at hr
   | readF => simp [Op.resetsFullF] at hr
   | readFullF => simp [Op.resetsFullF] at hr
@@ -275,6 +279,8 @@ theorem step_nsOK (O : Ops μ ρ) (K : Nat) (st : State μ ρ) (op : Op μ ρ)
       simp [hop]
     · exact h
   | setInit a => exact h
+  | query => exact h
+  | fork => exact h
   | setPrecoders f fullF p =>
     simp only [step, doSetPrecoders]
     cases f <;> cases fullF <;> first | exact h | (intro F hF; simp at hF; subst hF; simp)
@@ -367,6 +373,8 @@ theorem step_rejected_unchanged (O : Ops μ ρ) (K : Nat) (st : State μ ρ) (op
     · simp at he
   | clear => simp [step] at he
   | setInit a => rfl
+  | query => rfl
+  | fork => rfl
   | readF => simp [Op.isMutator] at hm
   | readFullF => simp [Op.isMutator] at hm
   | readW => simp [Op.isMutator] at hm
